@@ -165,16 +165,41 @@ class C09(Check):
             return ("hap", prim) if prim else ("primary",)
         return ("hap", key.lower())
 
-    def run_case(self, inp, pvspec, ctx):
+    def run_case(self, inp, pvspec, ctx, replay_prev=None):
         case = [pv.jsonable(inp), pv.jsonable(pvspec)]
         ctx.cur = case
         ctx.evaluations += 1
         bpt = pvspec[0]
         try:
-            _ba, out, _ = pv.remap(inp, pvspec)
+            _ba, out, input_asm = pv.remap(inp, pvspec)
         except Exception as e:  # noqa: BLE001
             ctx.count("did_not_complete_" + type(e).__name__)
+            self._prev = None
             return
+        # history: the same parsed input object serves several curation rounds (as the project's own test helper does);
+        # every third case is remapped once more on the input object the previous case used
+        prev = getattr(self, "_prev", None)
+        if replay_prev is None and ctx.evaluations % 3 == 1 and not any("Target" in p[4] for _, ps in pvspec[1] for p in ps):
+            # ... or, every third case, on an input object that first went through the same script in Target mode
+            tscript = tuple((n, tuple((*p[:4], (*p[4], "Target")) for p in ps)) if gi == 0 else (n, ps) for gi, (n, ps) in enumerate(pvspec[1]))
+            try:
+                prev = (inp, pv.remap(inp, (pvspec[0], tscript))[2])
+                self._prev_script = tscript
+            except Exception:  # noqa: BLE001
+                prev = None
+        if replay_prev is not None:
+            prev = (inp, pv.remap(inp, (pvspec[0], pv.tuplify(replay_prev)))[2])
+        if prev is not None and prev[0] == inp and (ctx.evaluations % 3 in (0, 1) or replay_prev is not None):
+            try:
+                out2 = pv.remap(inp, pvspec, input_asm=prev[1])[1]
+                if pv.out_spec(out2) != pv.out_spec(out):
+                    ctx.violation("result-depends-on-earlier-remap-of-the-same-input-object", case + [pv.jsonable(self._prev_script)] if replay_prev is None else case + [pv.jsonable(replay_prev)], f"{pv.out_spec(out2)!r} vs fresh input {pv.out_spec(out)!r}")
+                    return
+            except Exception as e:  # noqa: BLE001
+                ctx.violation("reused-input-object-raises", case, repr(e)[:300])
+                return
+        self._prev = (inp, input_asm)
+        self._prev_script = pvspec[1]
         exp, target_mode, prim = self.expected(inp, pvspec)
         margin = 3 * err_len(bpt)
         where, _maps = pv.output_positions(out)
@@ -285,6 +310,11 @@ class C09(Check):
                                 # scaffold-level tags on every piece, and (when a scaffold has several pieces and
                                 # no per-piece tag is involved) on its first piece only: the code takes their union
                                 modes = ("all", "first") if (ng < np_ and not any(ptags)) else ("all",)
+                                if ng < np_ and sum(1 for t in ptags if t) == 1:
+                                    # ... also when that first piece is the one removal-tagged piece of the script
+                                    firsts = {grp[0][0] for grp in arr2 if len(grp) > 1}
+                                    if any(ptags[pi] for pi in firsts):
+                                        modes = ("all", "first")
                                 for mode in modes:
                                     scaffolds = []
                                     for gi, grp in enumerate(arr2):
@@ -307,8 +337,8 @@ class C09(Check):
             from mc.checks import c03_cli
 
             return c03_cli.replay(self, case, ctx, validate_only=True, extra=c03_cli.check_c09_files)
-        inp, pvspec = case
-        self.run_case(pv.tuplify(inp), (pvspec[0], pv.tuplify(pvspec[1])), ctx)
+        inp, pvspec = case[:2]
+        self.run_case(pv.tuplify(inp), (pvspec[0], pv.tuplify(pvspec[1])), ctx, replay_prev=pv.tuplify(case[2]) if len(case) > 2 else None)
 
 
 CHECK = C09()
@@ -316,3 +346,4 @@ CHECK = C09()
 CHECK.rule += ' scaffold_1 may end in a 1-bp contig that no bait touches: a contig outside every bait counts as sequence absent from the map.'
 CHECK.rule += ' CLI family 4: untagged chromosomes plus one scaffold carrying a single haplotype tag, optional haplotig / contaminant, optional haplotype-prefixed scaffold absent from the map; at file level the component rows of all AGP files partition the input residues, and a whole-scaffold piece must be in the one file its tags name.'
 CHECK.rule += ' Haplotypes named in capitals without a digit: input PAT_SCAFFOLD_2 (+ MAT_SCAFFOLD_9 absent) with decorations {unpainted, Painted, Painted+MAT, Painted+PAT, MAT}.'
+CHECK.rule += ' Scaffold-level tags carried only by a first piece that is itself removal-tagged. History: every third case is remapped again on the input assembly object the previous case (same input, other script) already used, another third on an object that first went through the same script with Target added; the result must equal the fresh-input result.'
